@@ -122,6 +122,350 @@ def s2c_compound(ctx, cases):
         ctx.traces += 1
 
 
+# ---- sessions: caller-owned objects, several calls on them (spec/BumpSession.tla) ---------------
+class _DT(datetime.datetime):
+    """a caller's subclass of datetime"""
+
+
+class _TD(datetime.timedelta):
+    pass
+
+
+class _S(str):
+    pass
+
+
+DT_FORM_OK = ('datetime', 'sub', 'ts', 'date', 'np_D', 'np_s', 'np_us', 'np_ns')     # dt(t, bump) reads these as a date
+
+
+def render_start(s):
+    """the start instant s['t'] in the realisation s['real']"""
+    import numpy as np, pandas as pd
+    x, r = inst(s['t']), s['real']
+    if r == 'datetime':
+        return x
+    if r == 'sub':
+        return _DT(x.year, x.month, x.day, x.hour, x.minute, x.second, x.microsecond)
+    if r == 'ts':
+        return pd.Timestamp(x)
+    if r == 'date':
+        return x.date()
+    if r in ('np_D', 'np_s', 'np_us', 'np_ns'):
+        return np.datetime64(x.date() if r == 'np_D' else x, r[3:])
+    if r == 'int':
+        return x.year * 10000 + x.month * 100 + x.day
+    if r == 'str_d':
+        return x.strftime('%Y-%m-%d')
+    if r == 'str_s':
+        return x.strftime('%Y-%m-%d %H:%M:%S')
+    if r == 'str_us':
+        return x.strftime('%Y-%m-%dT%H:%M:%S.%f')
+    raise ValueError(r)
+
+
+def tenor_str(parts, style):
+    if style == 'm':
+        return ''.join(part_str(n, u, 'ul'[i % 2]) for i, (n, u) in enumerate(parts))
+    return ''.join(part_str(n, u, style if style in ('u', 'p') else 'l') for n, u in parts)
+
+
+def render_bump(b, dress='l'):
+    """the abstract bump b in the given dress (spelling of a period string / type of an int or a timedelta)"""
+    import numpy as np, pandas as pd
+    if b[0] == 'int':
+        return np.int64(b[1]) if dress == 'np_int64' else np.int32(b[1]) if dress == 'np_int32' else b[1]
+    if b[0] == 'td':
+        kw = dict(days=b[1][0], seconds=b[1][1], microseconds=b[1][2])
+        return pd.Timedelta(**kw) if dress == 'pd_td' else _TD(**kw) if dress == 'td_sub' else datetime.timedelta(**kw)
+    if dress == 'str_sub':
+        return _S(tenor_str(b[1], 'l'))
+    if dress == 'np_str':
+        return np.str_(tenor_str(b[1], 'l'))
+    return tenor_str(b[1], dress)
+
+
+def restyle(s, style):
+    """the concatenation of a caller's list of period strings, respelled"""
+    return s.upper() if style == 'u' else ''.join(ch.upper() if k % 2 else ch for k, ch in enumerate(s)) if style == 'm' else s
+
+
+def exec_session(lists0, actions):
+    """one session in this process: the caller's lists and start objects are made once and shared by all calls.
+    actions = [(kind, x)]; returns the observed steps [kind, x, outcome, the caller's lists afterwards].
+    The contents of a list are projected back through the table of the objects this session rendered
+    (by identity, else by equal value of the same type); anything else is 'foreign'."""
+    from pyg_base import dt_bump, dt
+    made = []                                            # (object, abstract bump)
+
+    def mk(b):
+        x = render_bump(b, 'l')
+        made.append((x, b))
+        return x
+
+    def proj(x):
+        for y, b in made:
+            if y is x:
+                return b
+        for y, b in made:
+            if type(y) is type(x) and y == x:
+                return b
+        return ['foreign', repr(x)[:60]]
+
+    lists = [[mk(b) for b in l] for l in lists0]
+    starts, out = {}, []
+    for kind, x in actions:
+        if kind == 'call':
+            op, s, arg, style = x
+            key = json.dumps(s, sort_keys=True)
+            if key not in starts:
+                starts[key] = render_start(s)
+            t = starts[key]
+            f = dt if op == 'dt' else dt_bump
+            try:
+                if arg[0] == 'list':
+                    r = f(t, lists[arg[1] - 1])
+                elif arg[0] == 'splat':
+                    r = f(t, *lists[arg[1] - 1])
+                elif arg[0] == 'join':
+                    r = f(t, restyle(''.join(lists[arg[1] - 1]), style))
+                else:
+                    r = f(t, render_bump(arg[1], style))
+                res = enc(r)
+            except Exception as e:
+                res = ['exc', type(e).__name__]
+        else:
+            e, res = x, ['none', '']
+            try:
+                if e[0] == 'append':
+                    lists[e[1] - 1].append(mk(e[2]))
+                elif e[0] == 'popfirst':
+                    lists[e[1] - 1].pop(0)
+                elif e[0] == 'poplast':
+                    lists[e[1] - 1].pop()
+                elif e[0] == 'set':
+                    lists[e[1] - 1][e[2] - 1] = mk(e[3])
+                elif e[0] == 'clear':
+                    lists[e[1] - 1].clear()
+                elif e[0] == 'extend':
+                    lists[e[1] - 1].extend(lists[e[2] - 1])
+            except IndexError:                           # an earlier call has changed the list (that call is where the replay stops)
+                res = ['edit_failed', '']
+        out.append([kind, x, res, [[proj(y) for y in l] for l in lists]])
+    return out
+
+
+def _fresh(job):
+    """worker: each GROUP of sessions of the chunk in a process of its own, forked from this worker, which itself never
+    calls pyg_base: whatever a call may leave behind in the process cannot reach the next group"""
+    import pickle
+    res = []
+    for group in job:
+        r, w = os.pipe()
+        pid = os.fork()
+        if pid == 0:
+            code = 0
+            try:
+                os.close(r)
+                with os.fdopen(w, 'wb') as f:
+                    pickle.dump([exec_session(lists0, actions) for lists0, actions in group], f)
+            except BaseException:
+                code = 1
+            os._exit(code)
+        os.close(w)
+        with os.fdopen(r, 'rb') as f:
+            data = f.read()
+        os.waitpid(pid, 0)
+        res += pickle.loads(data) if data else [None] * len(group)
+    return res
+
+
+def _warm(job):
+    return [exec_session(lists0, actions) for lists0, actions in job]
+
+
+def _items_of(step, lists_before):
+    kind, x = step[0], step[1]
+    arg = x[2]
+    if arg[0] == 'item':
+        return [arg[1]]
+    items = lists_before[arg[1] - 1]
+    return [['tenor', [p for b in items for p in b[1]]]] if arg[0] == 'join' else items
+
+
+def sess_clause(step, lists_before):
+    items = _items_of(step, lists_before)
+    if len(items) != 1:
+        return 'compound_left_to_right'
+    return clause_of(items[0])
+
+
+def s2c_sessions(ctx, sessions, family, fresh):
+    """replay TLC's histories: every step's outcome and the caller's lists afterwards == what TLC printed"""
+    import pyg_base                                              # imported before the fork, never called in this process
+    sessions = sorted(sessions, key=lambda x: json.dumps(x))
+    jobs = [(s[1], [(e[0], e[1]) for e in s[2]]) for s in sessions]
+    nproc = max(1, min(int(os.environ.get('VERIF_POOL', '8')), os.cpu_count() or 1))
+    # fresh = 0: all in the worker processes, one after the other;  fresh = g > 0: groups of g sessions, each group in a process
+    # of its own (g = 1: every history starts in a process that never called pyg_base); the groups are made twice, of
+    # neighbours in the sorted order and of sessions far apart, so that every session meets different predecessors
+    passes = [list(range(len(jobs)))]
+    if fresh > 1:
+        k = (len(jobs) + fresh - 1) // fresh
+        passes.append([j for a in range(k) for j in range(a, len(jobs), k)])
+    for order in passes:
+        if fresh:
+            groups = [[jobs[j] for j in order[a:a + fresh]] for a in range(0, len(order), fresh)]
+            step = max(1, min(50, len(groups) // (nproc * 4) + 1))
+            chunks = [groups[a:a + step] for a in range(0, len(groups), step)]
+        else:
+            step = max(1, min(200, len(jobs) // (nproc * 4) + 1))
+            chunks = [[jobs[j] for j in order[a:a + step]] for a in range(0, len(order), step)]
+        with multiprocessing.get_context('fork').Pool(nproc) as pool:
+            parts = pool.map(_fresh if fresh else _warm, chunks, chunksize=1)
+        got = [None] * len(jobs)
+        for j, o in zip(order, [o for p in parts for o in p]):
+            got[j] = o
+        _judge_sessions(ctx, sessions, got, family, order is passes[0])
+
+
+def _judge_sessions(ctx, sessions, got, family, first):
+    for i, (s, obs) in enumerate(zip(sessions, got)):
+        name, lists0, hist = s
+        if obs is None:
+            from harness.core import Machinery
+            raise Machinery('a forked session process died: %r' % (s,))
+        ctx.traces += 1
+        before = lists0
+        for k, (want, seen) in enumerate(zip(hist, obs)):
+            if want[0] == 'call':
+                ctx.evals += 1
+            if seen != want:
+                if want[0] != 'call':                   # the caller's own edit: nothing of pyg_base is involved
+                    from harness.core import Machinery
+                    raise Machinery('session driver and specification disagree on an edit: %r vs %r' % (seen, want))
+                clause = 'argument_changed' if seen[2] == want[2] else sess_clause(want, before)
+                c = want[1]
+                case = {'op': 'dt' if c[0] == 'dt' else 'dt_bump', 'kind': 'session', 'family': family, 'scenario': name, 'step': k + 1,
+                        'form': c[2][0], 'real': c[1]['real'], 'style': c[3], 'lists0': lists0,
+                        'history': [[e[0], e[1]] for e in hist[:k + 1]]}
+                ctx.violation(clause, case, {'expected': [want[2], want[3]], 'observed': [seen[2], seen[3]]})
+                break
+            before = want[3]
+        ctx.note((family, name, json.dumps([[e[0], e[1][0], e[1][2]] if e[0] == 'call' else [e[0], e[1]] for e in hist])))
+        if first and i % 1999 == 7:
+            ctx.sample({'s2c_session_' + family: s})
+
+
+def s2c_real(ctx, cases):
+    """single calls: every realisation of the start x every dress of the bump == the instant TLC printed"""
+    from pyg_base import dt_bump, dt
+    cases = sorted(cases, key=lambda c: json.dumps(c[:2], sort_keys=True))
+    for i, (op, s, bumps) in enumerate(cases):
+        t = render_start(s)                              # one start object for all the bumps
+        f = dt if op == 'dt' else dt_bump
+        for b, dress, want in sorted(bumps, key=json.dumps):
+            try:
+                got = enc(f(t, render_bump(b, dress)))
+            except Exception as e:
+                got = ['exc', type(e).__name__]
+            ctx.evals += 1
+            if got != want:
+                c = case_of(s['t'], b, dress)
+                c.update({'op': 'dt' if op == 'dt' else 'dt_bump', 'real': s['real'], 'dress': dress, 'family': 'real'})
+                ctx.violation(clause_of(b), c, {'expected': want, 'observed': got})
+        ctx.note(('real', op, s['real'], s['t'][0] % 7, s['t'][1]))
+        ctx.traces += 1
+        if i % 211 == 0:
+            ctx.sample({'s2c_real': [op, s, bumps[:3]]})
+
+
+# ---- C2S, sessions: random long sessions recorded from the code, judged by Trace_Bump ----------
+REALS_DAY, REALS_SEC = ('date', 'np_D', 'int', 'str_d'), ('np_s', 'str_s')
+REALS_FULL = ('datetime', 'sub', 'ts', 'np_us', 'str_us', 'np_ns')
+NS_LO, NS_HI = datetime.datetime(1700, 1, 1).toordinal(), datetime.datetime(2250, 1, 1).toordinal()
+
+
+def rand_start(rng, clock):
+    o = rng.randint(FIRST, LAST)
+    if not clock:
+        real = rng.choice(REALS_DAY + REALS_SEC + REALS_FULL)
+        t = [o, 0, 0]
+    else:
+        real = rng.choice(REALS_SEC + REALS_FULL)
+        t = [o, rng.choice([1, 34200, 86399, rng.randrange(86400)]), 0 if real in REALS_SEC else rng.choice([0, 1, 999999, rng.randrange(1000000)])]
+    if real == 'np_ns' and not NS_LO <= o <= NS_HI:
+        real = 'np_us'
+    return {'real': real, 't': t}
+
+
+def rand_item(rng, clock):
+    q = rng.random()
+    if q < 0.15:
+        return ['int', rng.randint(-60, 60)]
+    if q < 0.3:
+        return ['td', [rng.randint(-60, 60), rng.choice([0, 1, 43200, 86399]) if clock else 0, rng.choice([0, 1, 999999]) if clock else 0]]
+    units = ('b',) + FIXED if clock else ('b', 'd', 'w') + MONTH
+    return ['tenor', [[rng.randint(-60, 60), rng.choice(units)] for _ in range(rng.choice((1, 1, 1, 2, 3)))]]
+
+
+def rand_sessions(rng, n):
+    """random actions on shared objects; month units only in sessions whose instants stay at midnight (TLC re-checks the domain)"""
+    obs = []
+    for _ in range(n):
+        clock = rng.random() < 0.5
+        starts = [rand_start(rng, clock) for _ in range(3)]
+        items = [rand_item(rng, clock) for _ in range(4)]
+        lists0 = [[rng.choice(items) for _ in range(rng.randint(0, 3))] for _ in range(2)]
+        shadow = [len(l) for l in lists0]                # only the lengths, to keep the edits applicable
+        strs = [all(b[0] == 'tenor' for b in l) for l in lists0]
+        actions = []
+        for step in range(rng.randint(4, 12)):
+            if rng.random() < 0.6 or step == 0:
+                s = rng.choice(starts)
+                op = 'dt' if s['real'] in DT_FORM_OK and rng.random() < 0.4 else 'bump'
+                q, i = rng.random(), rng.randint(1, 2)
+                if q < 0.45:
+                    arg = ['list', i]
+                elif q < 0.6:
+                    arg = ['splat', i]
+                elif q < 0.75 and shadow[i - 1] and strs[i - 1]:
+                    arg = ['join', i]
+                else:
+                    arg = ['item', rng.choice(items)]
+                actions.append(('call', [op, s, arg, rng.choice(('l', 'u', 'm')) if arg[0] == 'join' else rng.choice(('l', 'u', 'p', 'm'))]))
+            else:
+                i, q = rng.randint(1, 2), rng.random()
+                if q < 0.4 and shadow[i - 1] < 6:
+                    b = rng.choice(items)
+                    actions.append(('edit', ['append', i, b])); shadow[i - 1] += 1; strs[i - 1] = strs[i - 1] and b[0] == 'tenor'
+                elif q < 0.55 and shadow[i - 1]:
+                    actions.append(('edit', [rng.choice(('popfirst', 'poplast')), i])); shadow[i - 1] -= 1; strs[i - 1] = False if shadow[i - 1] else True
+                elif q < 0.75 and shadow[i - 1]:
+                    b = rng.choice(items)
+                    actions.append(('edit', ['set', i, rng.randint(1, shadow[i - 1]), b])); strs[i - 1] = strs[i - 1] and b[0] == 'tenor'
+                elif q < 0.85:
+                    actions.append(('edit', ['clear', i])); shadow[i - 1] = 0; strs[i - 1] = True
+                elif shadow[i - 1] + shadow[2 - i] <= 6:
+                    actions.append(('edit', ['extend', i, 3 - i])); shadow[i - 1] += shadow[2 - i]; strs[i - 1] = strs[i - 1] and strs[2 - i]
+        actions = [a for a in actions]
+        obs.append({'k': 'sess', 'lists0': lists0, 'steps': exec_session(lists0, actions)})
+    return obs
+
+
+def rand_real(rng, n):
+    """single calls with the start in a random realisation and the bump in a random dress"""
+    obs = []
+    for _ in range(n):
+        clock = rng.random() < 0.6
+        s = rand_start(rng, clock)
+        b = rand_item(rng, clock)
+        dress = rng.choice({'int': ('int', 'np_int64', 'np_int32'), 'td': ('td', 'td_sub', 'pd_td')}.get(b[0], ('l', 'u', 'p', 'm', 'str_sub', 'np_str')))
+        op = 'dt' if s['real'] in DT_FORM_OK and rng.random() < 0.3 else 'bump'
+        steps = exec_session([], [('call', [op, s, ['item', b], dress])])
+        obs.append({'k': 'raw', 't': s['t'], 'bump': b, 'form': dress, 'real': s['real'], 'op': op, 'out': steps[0][2]})
+    return obs
+
+
 # ---- C2S, bulk: the real dt_bump on every start day x n x form, grouped -------------------------
 def _scan(job):
     """worker: real dt_bump on every midnight start of [lo, hi) x n x every single-unit form.
@@ -249,20 +593,53 @@ def rand_raw(rng, n):
     return obs
 
 
-def c2s(ctx, ranges, nraw, upper_every):
+def corrupted(sess):
+    """copies of recorded sessions with one field changed: the trace specification must reject each (the binding is real)"""
+    import copy
+    out = []
+    for o in sess:
+        ks = [k for k, e in enumerate(o['steps']) if e[0] == 'call' and e[2][0] == 'ok']
+        if not ks:
+            continue
+        a = copy.deepcopy(o); a['steps'][ks[-1]][2][1][0] += 1                      # the result one day later
+        b = copy.deepcopy(o); b['steps'][ks[0]][3][0].append(['foreign', 'x'])      # the caller's first list grew during a call
+        out += [(a, None), (b, 'argument_changed')]
+        if len(out) >= 6:
+            break
+    return out
+
+
+def c2s(ctx, ranges, nraw, upper_every, nsess):
+    from harness.core import Machinery
     obs, total, nstray = bulk(ctx, ranges, upper_every=upper_every)
     ngroups = len(obs)
-    raw = rand_raw(ctx.rng, nraw)
-    obs += raw
-    ctx.evals += total + len(raw)
-    bad = ctx.validate('Trace_Bump', obs)
+    raw = rand_raw(ctx.rng, nraw) + rand_real(ctx.rng, nraw // 2)
+    sess = rand_sessions(ctx.rng, nsess)
+    obs += raw + sess
+    ctx.evals += total + len(raw) + sum(1 for o in sess for e in o['steps'] if e[0] == 'call')
+    fake = corrupted(sess)
+    bad = ctx.validate('Trace_Bump', obs + [f for f, _ in fake])
+    rejected = {i: cl for i, cl in bad if i > len(obs)}
+    for j, (f, want) in enumerate(fake):
+        cl = rejected.get(len(obs) + j + 1)
+        if cl is None or cl in ('domain', 'unknown_kind') or (want and cl != want):
+            raise Machinery('Trace_Bump accepted a corrupted session (or rejected it for the wrong reason %r): %r' % (cl, f))
+    bad = [(i, cl) for i, cl in bad if i <= len(obs)]
     for i, clause in bad:
         o = obs[i - 1]
         if clause in ('domain', 'unknown_kind'):
-            from harness.core import Machinery
             raise Machinery('Trace_Bump: observation %d is outside the specified domain (%s): %r' % (i, clause, o))
-        if o['k'] == 'raw':
-            ctx.violation(clause, case_of(o['t'], o['bump'], o['form']), {'observed': o['out']})
+        if o['k'] == 'sess':
+            calls = [e[1] for e in o['steps'] if e[0] == 'call']
+            ctx.violation(clause, {'op': 'dt_bump', 'kind': 'session', 'family': 'c2s', 'lists0': o['lists0'],
+                                   'forms': sorted({c[2][0] for c in calls}), 'reals': sorted({c[1]['real'] for c in calls}),
+                                   'history': [[e[0], e[1]] for e in o['steps']]},
+                          {'observed': [[e[2], e[3]] for e in o['steps']]})
+        elif o['k'] == 'raw':
+            c = case_of(o['t'], o['bump'], o['form'])
+            if 'real' in o:
+                c.update({'real': o['real'], 'dress': o['form'], 'family': 'real', 'op': 'dt' if o['op'] == 'dt' else 'dt_bump'})
+            ctx.violation(clause, c, {'observed': o['out']})
         else:
             unit = o.get('unit', 'b')
             bump = ['int', o['n']] if o.get('form') == 'int' else ['td', [o['n'], 0, 0]] if o.get('form') == 'td' else ['tenor', [[o['n'], unit]]]
@@ -274,15 +651,38 @@ def c2s(ctx, ranges, nraw, upper_every):
         if (o['k'] == 'gb' and o['dord'] != o['n']) or (o['k'] == 'gm' and (o['dd'] != 0 or o['dy'] != 0)):
             ctx.note((o['k'], o.get('unit', 'b'), o['n'], o.get('wd', o.get('m')), o.get('dlo', 0), o.get('leap', 0), o['case']))
     for o in raw:
-        if o['bump'][0] == 'tenor' and len(o['bump'][1]) > 1:
-            ctx.note(('raw', repr(o['t']), repr(o['bump'])))
+        if (o['bump'][0] == 'tenor' and len(o['bump'][1]) > 1) or o.get('real', 'datetime') != 'datetime':
+            ctx.note(('raw', repr(o['t']), repr(o['bump']), o.get('real', '')))
+    for o in sess:
+        ctx.note(('sess', json.dumps(o['lists0']), json.dumps([[e[0], e[1]] for e in o['steps']])))
+    ctx.sample({'c2s_session': sess[len(sess) // 2]})
     ctx.sample({'c2s_group': obs[ngroups // 2]})
     ctx.sample({'c2s_raw': raw[len(raw) // 2]})
+    ctx.extra['c2s_sessions'] = {'sessions': len(sess), 'steps': sum(len(o['steps']) for o in sess), 'corrupted_copies_rejected': len(fake)}
     ctx.extra['c2s_bulk'] = {'calls': total, 'groups': ngroups, 'stray': nstray, 'days': sum(hi - lo for lo, hi in ranges)}
 
 
 def year_range(y0, y1):
     return (datetime.datetime(y0, 1, 1).toordinal(), datetime.datetime(y1, 12, 31).toordinal() + 1)
+
+
+def sessions(ctx):
+    """the session machine (spec/BumpSession.tla, MC_BumpSession.tla): its clauses, the mechanism variants that must break
+    them, and the S2C replay of its histories on shared objects"""
+    from harness.core import Machinery
+    for cfg, clause in (('queue', 'ArgumentsUntouched'), ('memo', 'NoMemory'), ('asis', 'RealisationIrrelevant')):
+        ctx.mc('MC_BumpSession', 'MC_BumpSession_%s.cfg' % cfg, must_fail=clause, coverage=False)
+    if not ctx.quick:
+        ctx.mc('MC_BumpSession', 'MC_BumpSession_thorough.cfg')
+    # the generator runs check every clause on every history they print
+    s2c_sessions(ctx, ctx.generate('MC_BumpSession', 'MC_BumpSession_genc.cfg' if ctx.quick else 'MC_BumpSession_genct.cfg'), 'collide', 16 if ctx.quick else 1)
+    s2c_sessions(ctx, ctx.generate('MC_BumpSession', 'MC_BumpSession_gen.cfg' if ctx.quick else 'MC_BumpSession_gent.cfg'), 'probe', 0)
+    if not ctx.quick:
+        s2c_sessions(ctx, ctx.generate('MC_BumpSession', 'MC_BumpSession_genf.cfg'), 'free', 0)
+        sim = ctx.generate('MC_BumpSession', 'MC_BumpSession_sim.cfg', simulate=4000, depth=9, seed=ctx.seed + 9, workers=1)
+        s2c_sessions(ctx, sim, 'sim', 0)
+        s2c_sessions(ctx, sim[:400], 'sim_fresh', 1)
+    s2c_real(ctx, ctx.generate('MC_BumpSession', 'MC_BumpSession_genr.cfg'))
 
 
 def run(ctx):
@@ -300,12 +700,13 @@ def run(ctx):
     if r.distinct < 300 * 121:
         from harness.core import Machinery
         raise Machinery('MC_Bump walked only %d states: the day-by-day action Next was not taken' % r.distinct)
+    sessions(ctx)                # first: the processes the histories are replayed in are forked before this one ever calls pyg_base
     s2c_units(ctx, ctx.generate('MC_Bump', 'MC_Bump_genU.cfg' if ctx.quick else 'MC_Bump_genU2.cfg'))
     s2c_compound(ctx, ctx.generate('MC_Bump', 'MC_Bump_genC.cfg' if ctx.quick else 'MC_Bump_genC2.cfg'))
     if ctx.quick:
-        c2s(ctx, [year_range(1999, 2001), year_range(2099, 2101)], 10000, 3)     # upper-case letters for every third n
+        c2s(ctx, [year_range(1999, 2001), year_range(2099, 2101)], 10000, 3, 1500)     # upper-case letters for every third n
     else:
-        c2s(ctx, [(FIRST, LAST + 1)], 200000, 2)               # upper-case letters for every second n
+        c2s(ctx, [(FIRST, LAST + 1)], 200000, 2, 40000)               # upper-case letters for every second n
     ctx.exhaustive = False
     ctx.assumptions += [
         'bulk C2S observations are grouped before TLC sees them: business days by (weekday, n, days moved, time of day of the result), '
